@@ -48,7 +48,10 @@ Inductive label :=
 | LSignal                                  (* SIGINT / SIGTERM is delivered *)
 | LRootSignal                              (* the root consumes the termination event *)
 | LChange (ts : list tid)                  (* watch: the watchers of ts report a relevant change *)
-| LJoin.                                   (* every actor task has ended: the process exits *)
+| LJoin                                    (* every actor task has ended: the process exits *)
+| LDeliverAt (t : tid) (i : nat) (spawn_ok : bool)   (* actor t handles the i-th message of its inbox: allowed when no earlier
+                                              message there comes from the same sender (see [exec]) *)
+| LRootAt (i : nat).                       (* the root loop handles the i-th entry of its queue, under the same condition *)
 
 Definition upd_actor (s : sys) (t : tid) (a : astate) (ib : gmap tid (list msg)) (rq : list out)
            (sl tq : gset tid) (h : list obs) : sys :=
@@ -76,6 +79,28 @@ Definition all_exited (s : sys) : bool :=
 Definition is_watchable (a : astate) : bool :=
   match a_kind a with AAggregate => false | _ => true end.
 
+(* Who sent a message.  The code relays every actor output through ONE channel: the messages of one sender reach a
+   destination in the order they were sent, messages of different senders in the order the channel interleaved them.  The
+   model appends all the outputs of a step at once; to cover every interleaving the real relay can produce, a destination
+   may handle ANY message of its inbox that no earlier message of the same sender precedes (LDeliverAt / LRootAt): every
+   merge of the per-sender streams is a possible handling order.  LDeliver / LRoot are the special case i = 0. *)
+Definition sender (m : msg) : aid :=
+  match m with
+  | MRequested _ r | MUnrequested _ r => r
+  | MOk _ t _ | MInvalidated _ t => ATarget t
+  end.
+Definition out_sender (o : out) : aid := match o with OMsg _ m => sender m | OErr t => ATarget t end.
+
+Fixpoint pick {A} (i : nat) (l : list A) : option (list A * A * list A) :=
+  match l, i with
+  | [], _ => None
+  | x :: l', 0 => Some ([], x, l')
+  | x :: l', S i' => match pick i' l' with Some (pre, y, rest) => Some (x :: pre, y, rest) | None => None end
+  end.
+
+Definition none_from {A} (f : A -> aid) (r : aid) (pre : list A) : bool :=
+  forallb (fun x => negb (bool_decide (f x = r))) pre.
+
 Section exec.
   Context (fx1 : bool) (watch : bool).
 
@@ -90,6 +115,18 @@ Section exec.
 
   Definition root_running (s : sys) : bool := bool_decide (ph s = PRun).
   Definition root_sets_empty (s : sys) : bool := set_empty (r_unavB s) && set_empty (r_unavS s).
+
+  (* the root loop takes the entry [o] out of its queue, [rest] is what remains *)
+  Definition root_consume (s : sys) (o : out) (rest : list out) : sys :=
+    if watch then set_root s rest (ph s) (r_unavB s) (r_unavS s) (r_svc s) (termq s) (sigq s)
+    else match o with
+         | OErr t => set_root s rest (PTerminating (SErr t)) (r_unavB s) (r_unavS s) (r_svc s) (dom (actors s)) (sigq s)
+         | OMsg ARoot (MOk KB t _) =>
+             set_root s rest (ph s) (r_unavB s ∖ {[t]}) (r_unavS s) (r_svc s) (termq s) (sigq s)
+         | OMsg ARoot (MOk KS t actual) =>
+             set_root s rest (ph s) (r_unavB s) (r_unavS s ∖ {[t]}) (if actual then r_svc s ∪ {[t]} else r_svc s) (termq s) (sigq s)
+         | _ => set_root s rest (ph s) (r_unavB s) (r_unavS s) (r_svc s) (termq s) (sigq s)
+         end.
 
   Definition exec (s : sys) (l : label) : option sys :=
     match l with
@@ -128,20 +165,28 @@ Section exec.
         if root_running s && (watch || negb (root_sets_empty s)) then
           match rootq s with
           | [] => None
-          | o :: rest =>
-              if watch then Some (set_root s rest (ph s) (r_unavB s) (r_unavS s) (r_svc s) (termq s) (sigq s))
-              else match o with
-                   | OErr t => Some (set_root s rest (PTerminating (SErr t)) (r_unavB s) (r_unavS s) (r_svc s)
-                                              (dom (actors s)) (sigq s))
-                   | OMsg ARoot (MOk KB t _) =>
-                       Some (set_root s rest (ph s) (r_unavB s ∖ {[t]}) (r_unavS s) (r_svc s) (termq s) (sigq s))
-                   | OMsg ARoot (MOk KS t actual) =>
-                       Some (set_root s rest (ph s) (r_unavB s) (r_unavS s ∖ {[t]})
-                                      (if actual then r_svc s ∪ {[t]} else r_svc s) (termq s) (sigq s))
-                   | _ => Some (set_root s rest (ph s) (r_unavB s) (r_unavS s) (r_svc s) (termq s) (sigq s))
-                   end
+          | o :: rest => Some (root_consume s o rest)
           end
         else None
+    | LRootAt i =>
+        if root_running s && (watch || negb (root_sets_empty s)) then
+          match pick i (rootq s) with
+          | Some (pre, o, rest) => if none_from out_sender (out_sender o) pre then Some (root_consume s o (pre ++ rest)) else None
+          | None => None
+          end
+        else None
+    | LDeliverAt t i ok =>
+        match actors s !! t, inbox s !! t with
+        | Some a, Some l =>
+            match pick i l with
+            | Some (pre, m, rest) =>
+                if none_from sender (sender m) pre
+                then apply_step s t (<[t := pre ++ rest]> (inbox s)) (slot s) (termq s) (actor_step fx1 ok a (EMsg m))
+                else None
+            | None => None
+            end
+        | _, _ => None
+        end
     | LRootIdle =>
         if root_running s && negb watch && root_sets_empty s then
           if set_empty (r_svc s)
